@@ -320,6 +320,28 @@ theorem copy_prefix_safe (reach : ID → List Handle) (has0 : List Handle) (batc
   intro d0
   exact prefix_safe reach _ d0 (copyRun_accepted reach has0 batches) (by intro sn hsn; cases hsn) k
 
+/-- **resume after a cut**: let a first run be cut after any `k` operations, and let `copy` run
+    again on that destination with *any* view `has1` of it that is sound (everything in `has1`
+    can be loaded — e.g. the index of the crashed destination, possibly after `repair index`;
+    `has1` need not be closed under reachability: it may well list a tree blob whose data blobs
+    never arrived). Then at every prefix `j` of the second run every snapshot stored by either run
+    is restorable. The transcription of `copyTree` enqueues every reachable blob the destination
+    does not know and never skips a subtree because its tree blob is known — that is exactly what
+    this theorem needs; "tree blob indexed in dst" is not "tree completely copied". -/
+theorem resume_prefix_safe (reach : ID → List Handle) (has0 : List Handle) (batches1 : List (List Snap))
+    (k : Nat) (has1 : List Handle) (batches2 : List (List Snap)) (j : Nat)
+    (hk : Known (Dst.applyAll { has0, packs := [], indexed := [], snaps := [] } ((copyRun reach has0 batches1).take k)) has1) :
+    let d1 := Dst.applyAll { has0, packs := [], indexed := [], snaps := [] } ((copyRun reach has0 batches1).take k)
+    ∀ sn ∈ (d1.applyAll ((copyRun reach has1 batches2).take j)).snaps,
+      (d1.applyAll ((copyRun reach has1 batches2).take j)).restorable reach sn = true := by
+  intro d1
+  exact prefix_safe reach (copyRun reach has1 batches2) d1
+    (runBatches_accepted reach batches2 has1 0 d1 hk)
+    (copy_prefix_safe reach has0 batches1 k) j
+
+/-- the destination's own availability view is always a sound `has1` -/
+theorem known_of_avail (d : Dst) (has1 : List Handle) (h : ∀ x ∈ has1, d.avail x = true) : Known d has1 := h
+
 /-! ### T1: call orders regenerated from the current source -/
 
 /-- `copyTreeBatched`: the trees of a batch are copied inside `WithBlobUploader` (which flushes
@@ -352,6 +374,15 @@ example : selected [s1, s2] [copySnap s1 "n1"] = [s2] := by decide
 /-- the acceptor is not trivial: a snapshot saved before its index is rejected -/
 example : accept exReach ⟨[], [], [], []⟩
   [.savePack "p" ["1:t1", "0:b1", "0:b2"], .saveSnap (copySnap s1 "n"), .saveIndex [("p", "1:t1"), ("p", "0:b1"), ("p", "0:b2")]] = false := by decide
+/-- resumed copy into a destination that knows the tree blob `1:t1` but not its data (the state a
+    cut between tree pack + index and data pack leaves): the data blobs are uploaded -/
+example : copyRun exReach ["1:t1"] [[s1]] =
+  [.savePack "newpack0" ["0:b1", "0:b2"], .saveIndex [("newpack0", "0:b1"), ("newpack0", "0:b2")],
+   .saveSnap (copySnap s1 "new-0-s1")] := by decide
+/-- … whereas a run that skips the subtree because its tree blob is known (seeded change C32-b)
+    saves the snapshot without them, which the acceptor rejects -/
+example : accept exReach ⟨["1:t1"], [], [], []⟩ [.saveSnap (copySnap s1 "n")] = false := by decide
+
 /-- before fix/C32-copy-null-original a null `original` defeated the skip test; with the fixed
     transcription the copy is recognised -/
 example : selected [{ s1 with original := some nullID }] [copySnap { s1 with original := some nullID } "n"] = [] := by decide
